@@ -21,11 +21,11 @@ theorem all_not_lt_nonneg {l : List α}
 theorem validate_spec {c : Consts α} {cfg : Cfg α} {alg : Alg} {X : Data α} {init : Ktensor α}
     (h : validate (NumOps.ofField log) c cfg alg X init = true) :
     NonnegData X ∧ NonnegK init ∧ ShapeK X.shape cfg.rank init ∧ 0 < cfg.maxiters ∧ 0 < cfg.rank ∧
-      0 < c.maxSteps := by
+      0 < c.maxSteps ∧ 0 < X.shape.length := by
   unfold validate at h
   simp only [Bool.and_eq_true, decide_eq_true_eq, beq_iff_eq] at h
-  obtain ⟨⟨⟨⟨⟨⟨⟨⟨⟨⟨hrank, hdata⟩, _⟩, hN⟩, hR⟩, hshape⟩, hfac⟩, hw⟩, hmi⟩, _⟩, hms⟩ := h
-  refine ⟨?_, ⟨all_not_lt_nonneg log hw, ?_⟩, ⟨hR, hshape, ?_⟩, hmi, hrank, hms⟩
+  obtain ⟨⟨⟨⟨⟨⟨⟨⟨⟨⟨⟨hrank, hdata⟩, _⟩, hN⟩, hR⟩, hshape⟩, hfac⟩, hw⟩, hmi⟩, _⟩, hms⟩, hNpos⟩ := h
+  refine ⟨?_, ⟨all_not_lt_nonneg log hw, ?_⟩, ⟨hR, hshape, ?_⟩, hmi, hrank, hms, hNpos⟩
   · cases X with
     | dense T =>
       simp only [Bool.and_eq_true] at hdata
